@@ -2,6 +2,7 @@ import HdVerif.Model.Basic
 import HdVerif.Generated.T15a
 import HdVerif.Generated.T15b
 import HdVerif.Generated.T15d
+import HdVerif.Generated.T15e
 /-! C15: SR documents, evidence collection and references built from a segmentation.
 
 Models `sr/utils.py` (`find_content_items`, `collect_evidence`, `_create_references`), the decision logic of
@@ -213,20 +214,33 @@ def predecessors (prev : List Evd) : Groups :=
 def countScoord3d (tree : Item) : Except ErrKind Nat :=
   (findContentItems tree { vt := some "SCOORD3D" } true).map List.length
 
-/-- `_SR.__init__` followed by the class-specific guard.  The verification guard and the SCOORD3D guards
-are the definitions translated from the current source (tie T, `Generated/T15a.lean`). -/
+/-- `ContentItem._from_dataset_derived(content_copy)`: the conversion of the copied tree walks every content sequence and
+refuses an item whose value type is not in the enumeration (ValueError) or — below the root — that has no relationship
+type (AttributeError).  (Everything else the per-type parsers check is C13's.) -/
+def convertTree (tree : Item) : Except ErrKind Unit :=
+  if !Gen.srValueTypes.contains tree.vt then .error .value
+  else
+    match (descendants tree).find? (fun it => !Gen.srValueTypes.contains it.vt || it.rel.isNone) with
+    | none => .ok ()
+    | some it => if !Gen.srValueTypes.contains it.vt then .error .value else .error .attribute
+
 def scoord3dGuard (cls : DocClass) (n : Nat) : Except ErrKind Bool :=
   match cls with
   | .enhanced => Gen.srScoord3dGuardEnhanced (n : Int)
   | .comprehensive => Gen.srScoord3dGuardComprehensive (n : Int)
   | .comprehensive3d => Gen.srScoord3dGuardComprehensive3D (n : Int)
 
+/-- `_SR.__init__` followed by the class-specific guard.  The verification guard and the SCOORD3D guards
+are the definitions translated from the current source (tie T, `Generated/T15a.lean`). -/
 def buildSR (a : DocArgs) : Except ErrKind Doc :=
   if a.evidence.isEmpty then .error .value else
   match Gen.srVerifiedGuard a.verified (!a.hasObserver) (!a.hasOrganization) with
   | .error e => .error e
   | .ok _ =>
     if a.nRoots ≠ 1 then .error .value else
+    match convertTree a.tree with
+    | .error e => .error e
+    | .ok _ =>
     -- `ContentSequence([content_item], is_root=True)`: the root has no relationship and is a CONTAINER
     if a.tree.rel.isSome then .error .attribute else
     if a.tree.vt ≠ "CONTAINER" then .error .type else
@@ -304,12 +318,22 @@ structure SrcImg where
   frames : Option (List Int)       -- ReferencedFrameNumber (absent / 1..n values)
 deriving DecidableEq, Repr
 
-/-- one item of `PerFrameFunctionalGroupsSequence`: the segment it belongs to and, when a (single)
-`DerivationImageSequence` item is present, its `SourceImageSequence` -/
+/-- one item of `PerFrameFunctionalGroupsSequence`: the segment it belongs to and its `DerivationImageSequence`
+(absent, or a list of items each with its `SourceImageSequence` — absent or a list of source images) -/
 structure FrameInfo where
   segment : Int
-  src : Option (List SrcImg)
+  drv : Option (List (Option (List SrcImg)))
 deriving Repr
+
+/-- the source image of a frame as `ReferencedSegmentationFrame.from_segmentation` reads it: none when the frame has no
+derivation item or its single derivation item has no source sequence; several derivation items or several source images
+are refused -/
+def FrameInfo.single (fi : FrameInfo) : Except ErrKind (Option SrcImg) :=
+  match fi.drv with
+  | none => .ok none
+  | some [none] => .ok none
+  | some [some [src]] => .ok (some src)
+  | some _ => .error .value
 
 structure Seg where
   isSeg : Bool                     -- SOP class is (label map) segmentation storage
@@ -342,6 +366,7 @@ structure LoopAcc where
   segs : List Int
   srcUids : Option (String × String)
   srcFrames : List Int
+  srcWhole : Bool := false      -- some named frame derives from the source image as a whole (no ReferencedFrameNumber)
 
 def unionInto (acc : List Int) : List Int → List Int
   | [] => acc
@@ -355,14 +380,15 @@ def segFrameLoop (s : Seg) : List Int → LoopAcc → Except ErrKind LoopAcc
     | none => .error .value
     | some fi =>
       let a1 := { a with segs := a.segs ++ [fi.segment] }
-      match fi.src with
-      | none => segFrameLoop s fs a1
-      | some [src] =>
+      match fi.single with
+      | .error e => .error e
+      | .ok none => segFrameLoop s fs a1
+      | .ok (some src) =>
         let fr := match src.frames with | none => a1.srcFrames | some l => unionInto a1.srcFrames l
+        let wh := match src.frames with | none => true | some _ => a1.srcWhole
         (match a1.srcUids with
-         | none => segFrameLoop s fs { a1 with srcUids := some (src.cls, src.inst), srcFrames := fr }
-         | some u => if u = (src.cls, src.inst) then segFrameLoop s fs { a1 with srcFrames := fr } else .error .value)
-      | some _ => .error .value
+         | none => segFrameLoop s fs { a1 with srcUids := some (src.cls, src.inst), srcFrames := fr, srcWhole := wh }
+         | some u => if u = (src.cls, src.inst) then segFrameLoop s fs { a1 with srcFrames := fr, srcWhole := wh } else .error .value)
 
 /-- the frame numbers named by the request: given, or all frames of the segment (several only when tiled) -/
 def segFrameNumbers (s : Seg) (frames : Option (List Int)) (segment : Option Int) : Except ErrKind (List Int) :=
@@ -379,7 +405,7 @@ def segFrameNumbers (s : Seg) (frames : Option (List Int)) (segment : Option Int
 /-- the source image: the one found in the frames, else the single instance of the referenced series -/
 def segFrameSource (s : Seg) (a : LoopAcc) : Except ErrKind SrcImg :=
   match a.srcUids with
-  | some (c, i) => .ok (SrcImg.mk c i (if a.srcFrames.isEmpty then none else some a.srcFrames))
+  | some (c, i) => .ok (SrcImg.mk c i (if a.srcWhole || a.srcFrames.isEmpty then none else some a.srcFrames))
   | none => match s.refSeries with
     | none => .error .attribute
     | some _ => match s.refInstances with
@@ -403,7 +429,7 @@ def refSegFrame (s : Seg) (frames : Option (List Int)) (segment : Option Int) : 
   match segFrameNumbers s frames segment with
   | .error e => .error e
   | .ok fnums =>
-    match segFrameLoop s fnums ⟨[], none, []⟩ with
+    match segFrameLoop s fnums ⟨[], none, [], false⟩ with
     | .error e => .error e
     | .ok a =>
       match segFrameSource s a with
@@ -430,12 +456,26 @@ def namedFrames (s : Seg) (segment : Int) : List Int → Except ErrKind (List Fr
     | none => .error .value
     | some fi => if fi.segment ≠ segment then .error .value else (namedFrames s segment fs).map (fi :: ·)
 
-/-- source images of the given frames, first occurrence of every instance UID -/
-def gatherSources : List SrcImg → List String → List SrcImg
-  | [], _ => []
-  | x :: xs, seen => if x.inst ∈ seen then gatherSources xs seen else x :: gatherSources xs (seen ++ [x.inst])
+/-- frame numbers of one source instance seen so far merged with a further mention: the union, or none (the whole
+instance) as soon as one mention lists no frame numbers -/
+def mergeFrames : Option (List Int) → Option (List Int) → Option (List Int)
+  | some a, some b => some (unionInto a b)
+  | _, _ => none
 
-def frameSources (fi : FrameInfo) : List SrcImg := match fi.src with | none => [] | some l => l
+/-- `source_info[ins_uid] = …` : a further source image merged into the per-instance table (insertion order, class of
+the first mention) -/
+def mergeSrc : List SrcImg → SrcImg → List SrcImg
+  | [], x => [x]
+  | y :: ys, x => if y.inst = x.inst then { y with frames := mergeFrames y.frames x.frames } :: ys else y :: mergeSrc ys x
+
+/-- source images of the given frames: every instance once, with all the frames any mention lists -/
+def gatherSources (l : List SrcImg) : List SrcImg := l.foldl mergeSrc []
+
+/-- every source image of a frame (all derivation items, all their source images) -/
+def frameSources (fi : FrameInfo) : List SrcImg :=
+  match fi.drv with
+  | none => []
+  | some ds => ds.flatMap (fun d => match d with | none => [] | some l => l)
 
 /-- `ReferencedSegment.from_segmentation(segmentation, segment_number, frame_numbers)` -/
 def refSegment (s : Seg) (segment : Int) (frames : Option (List Int)) : Except ErrKind SegmentRef := do
@@ -445,7 +485,7 @@ def refSegment (s : Seg) (segment : Int) (frames : Option (List Int)) : Except E
     | none =>
       let l := s.frames.filter (fun fi => fi.segment = segment)
       if l.isEmpty then throw .value else pure l
-  let sources := gatherSources (infos.flatMap frameSources) []
+  let sources := gatherSources (infos.flatMap frameSources)
   if !sources.isEmpty then
     pure ⟨s.cls, s.inst, frames, segment, sources, none⟩
   else match s.refSeries with
